@@ -1,4 +1,4 @@
 #!/bin/sh
 # false-alarm regression: every behaviour-preserving patch under /verif/neutral must leave every check silent
-cd /verif
-for d in neutral/C* neutral2/C* neutral3/C*; do ./tools/neutral_eval.py $d "$@" 2>&1 | grep -E "ALARM|patches|rc="; done
+cd "$(dirname "$0")/.."
+for d in neutral/C* neutral2/C* neutral3/C*; do echo "== $d"; ./tools/neutral_eval.py $d "$@" 2>&1 | grep -E "ALARM|patches|rc="; done
